@@ -456,6 +456,7 @@ func runC08(c *Ctx, tier string) {
 	runLegsGetCopies(c, "C08-D2")
 	runPartialsPairing(c, "C08-D3")
 	c.borrow(func(t *Ctx) { runC07(t, "quick") }, map[string]string{"C07-D5": "C08-D5", "C07-N2": "C08-N2", "C07-D9": "C08-D9"})
+	runSplitSummarizeTailKeys(c, "C08-D4")
 	c.Rule("C08-N1", "the merge that recombines scan legs orders nulls like the lake does (= C16-N1: comparators on the lake path are built with nullsMax = true)")
 	checkNullsMax(c, "C08-N1")
 	c.Rule("C08-N2", "a sort is split into per-leg sorts and a merge only after its null placement was consulted (= C07-N2)")
